@@ -6,22 +6,17 @@ import SaModel.Spec.Blame
 /-
 C18, blame against the SPECIFICATION (`Spec.blameDT`): vocabulary.
 
-  `Bl S r`            if `r` is an annotated error, its `field` is one of the paths in `S` — or it is the one cell in which
-                      builders and specification read `innermost` differently (`DictKeyCell`: `None` for a non-nullable
-                      dictionary column is refused by the dictionary's KEY builder, `{p}.key`, where the specification
-                      names the dictionary column `p`)
+  `Bl S r`            if `r` is an annotated error, its `field` is one of the paths in `S` (no exception any more: since
+                      repo fix ca6f255 a `None` for a non-nullable dictionary column is refused by the dictionary
+                      builder itself, under the column's path, not by its key builder under `{p}.key`)
   `At path dt n md b` `b` is a (later) state of the builder `build_builder` creates at `path` for a field of type `dt`
   `Kids…`             the children of a struct / union state, each `Good` and `At` its own path
 -/
 namespace SaModel.Props.C18
 open SaModel SaModel.Build SaModel.Spec
 
-/-- the cell in which the two readings differ: the key builder of a dictionary refuses a null -/
-def DictKeyCell (msg : String) (a : List (String × String)) (p : String) : Prop :=
-  a.lookup "field" = some (p ++ ".key") ∧ msg = "Cannot push null for non-nullable array"
-
 def Bl (S : List String) {α} (r : R α) : Prop :=
-  ∀ msg a, r = .error (.errCtx msg a) → ∃ p ∈ S, a.lookup "field" = some p ∨ DictKeyCell msg a p
+  ∀ msg a, r = .error (.errCtx msg a) → ∃ p ∈ S, a.lookup "field" = some p
 
 theorem NoCtx.bl {α} {S : List String} (r : R α) [h : NoCtx r] : Bl S r :=
   fun msg a e => absurd e (h.out msg a)
@@ -50,7 +45,7 @@ theorem Bl.ctx_own {α} {S : List String} {r : R α} (b : B) (hown : ∀ msg, r 
     cases f with
     | err m =>
       simp [SaModel.ctx, B.ann] at e
-      exact ⟨b.path, hown m rfl, .inl (by rw [← e.2]; rfl)⟩
+      exact ⟨b.path, hown m rfl, by rw [← e.2]; rfl⟩
     | panic s => cases e
     | errCtx m a' => exact h msg a e
 
